@@ -721,8 +721,10 @@ func (m *MutableOverlayWorld) FindFeatureByID(id b6.FeatureID) b6.Feature {
 }
 
 func (m *MutableOverlayWorld) FindLocationByID(id b6.FeatureID) (s2.LatLng, error) {
-	if ll, err := m.features.FindLocationByID(id); err == nil {
-		return ll, nil
+	if m.features.HasFeatureWithID(id) {
+		// The modified version of the feature replaces the base's, even
+		// if it has no location.
+		return m.features.FindLocationByID(id)
 	}
 	return m.base.FindLocationByID(id)
 }
